@@ -792,8 +792,26 @@ func (e *FnEnc) encCopy(cc *ssa.CallCommon, pos token.Pos) *Val {
 	n = site(e.idxLt(dst.L[2], srcLen), dst.L[2], srcLen)
 	n = e.define(e.fresh("copyn"), e.sorter.idxSort(), n)
 	if isAggregateElem(elT) {
-		e.note("copy() of struct slices: destination elements havocked")
-		e.havocTargets(e.elemTargets(dst.L[0], elT))
+		if srcIsString {
+			unsup("copy of a string into a slice of structs")
+		}
+		// struct elements (memmove): each leaf array gets a fresh version constrained pointwise —
+		// dst[k] = old src[k] for k < n, every other slot unchanged
+		ix := e.sorter.idxSort()
+		e.eaddr(dst.L[0], e.idxConst(0))
+		for _, t := range e.objTargets("?", elT) {
+			cur := e.heapArr(t.name, t.sort)
+			e.havocHeap(t.name)
+			nw := e.heapArr(t.name, t.sort)
+			dAddr := e.eaddr(dst.L[0], e.idxAdd(dst.L[1], "k"))
+			sAddr := e.eaddr(src.L[0], e.idxAdd(src.L[1], "k"))
+			e.assume(fmt.Sprintf("(forall ((k %s)) (! (=> (and %s %s) (= (select %s %s) (select %s %s))) :pattern ((select %s %s))))",
+				ix, e.idxLe(e.idxConst(0), "k"), e.idxLt("k", n), nw, dAddr, cur, sAddr, nw, dAddr))
+			e.assume(fmt.Sprintf("(forall ((r Int)) (! (=> (not (= (eaddr_base r) %s)) (= (select %s r) (select %s r))) :pattern ((select %s r))))", dst.L[0], nw, cur, nw))
+			kAddr := e.eaddr(dst.L[0], "k")
+			e.assume(fmt.Sprintf("(forall ((k %s)) (! (=> (not (and %s %s)) (= (select %s %s) (select %s %s))) :pattern ((select %s %s))))",
+				ix, e.idxLe(dst.L[1], "k"), e.idxLt("k", e.idxAdd(dst.L[1], n)), nw, kAddr, cur, kAddr, nw, kAddr))
+		}
 		return &Val{T: tInt, L: []string{n}}
 	}
 	for _, l := range e.sorter.leaves(elT) {
